@@ -454,11 +454,23 @@ Qed.
 (* the restriction on histories: no assignment through the empty tuple *)
 Definition op_ok (o : op) : Prop := match o with OSet kt _ => kt <> [] | _ => True end.
 
+Lemma amem_store_iff kt (l : list (tup * val)) : amem tup_eqb kt l = true <-> In kt (map fst l).
+Proof.
+  unfold amem. destruct (aget tup_eqb kt l) as [v|] eqn:E; split; intro H; try reflexivity; try discriminate.
+  - apply (aget_Some_In_fst tup_eqb tup_eqb_spec _ v). exact E.
+  - apply (In_fst_aget tup_eqb tup_eqb_spec) in H as [v Hv]. congruence.
+Qed.
+
 (* observations raise exactly when the specification says so *)
 Lemma qraises_coherent d a q : Coherent d a -> qraises d q = aq_raises a q.
 Proof.
   intro HC. destruct (coherent_view d a HC) as [H1 [H2 _]].
-  destruct q as [k|k|v| |]; simpl; try reflexivity.
+  destruct q as [k|k|v| | |kt|]; simpl; try reflexivity;
+    [| |f_equal; apply Bool.eq_true_iff_eq; rewrite amem_store_iff, existsb_exists;
+         destruct (coherent_view d a HC) as [_ [_ [_ [_ [[_ [Hi1 Hi2]] _]]]]]; split;
+         [intro Hin; apply Hi1 in Hin; apply in_map_iff in Hin as [v [Hv Hin]]; exists v; split;
+            [exact Hin|apply tup_eqb_spec; exact Hv]
+         |intros [v [Hin Hv]]; apply tup_eqb_spec in Hv; apply Hi2; apply in_map_iff; exists v; split; assumption]].
   - specialize (H1 k). destruct (getitem d k), (aval a k); simpl in *; congruence.
   - specialize (H2 k). destruct (key2keys d k), (aval a k); simpl in *; congruence.
 Qed.
@@ -467,7 +479,7 @@ Lemma mstep_coherent d a o :
   Coherent d a -> op_ok o ->
   Coherent (fst (mstep d o)) (fst (astep false a o)) /\ snd (mstep d o) = snd (astep false a o).
 Proof.
-  intros HC Hok. destruct o as [kt v|k|k|kt|q|v|]; simpl.
+  intros HC Hok. destruct o as [kt v|k|k|kt|q|v| |kt]; simpl.
   - destruct (setitem_coherent d a kt v HC Hok) as [d' [Hd' HC']]. rewrite Hd'. simpl. split; [exact HC'|reflexivity].
   - unfold aspec_del. destruct (aval a k) as [v|] eqn:Hk.
     + destruct (delitem_coherent d a k v HC Hk) as [d' [Hd' HC']]. rewrite Hd'. simpl. split; [exact HC'|reflexivity].
@@ -475,6 +487,7 @@ Proof.
   - split; [exact HC|reflexivity].
   - split; [exact HC|reflexivity].
   - split; [exact HC|apply qraises_coherent; exact HC].
+  - split; [exact HC|reflexivity].
   - split; [exact HC|reflexivity].
   - split; [exact HC|reflexivity].
 Qed.
